@@ -234,7 +234,7 @@ Proof.
       rewrite G1, G2, G4, K2. rewrite Hmz, Z2. rewrite K2 in T2.
       split; [clear - Hi2 Hg1; lia|]. split; [clear - Hcap Hg1; lia|]. split; [exact U2|].
       split; [left; reflexivity|]. right.
-      split; [reflexivity|]. split; [clear - Hg2; lia|]. split; [clear - Hg1; lia|]. split; [lia|]. split; [lia|].
+      split; [reflexivity|]. split; [clear - Hg2; lia|]. split; [clear - Hg1; lia|]. split; [apply Z.le_max_l|]. split; [apply Z.le_max_r|].
       split; [exact Hs|exact T2].
     + rewrite Z.geb_leb in T2. apply Z.leb_gt in T2. rewrite K2 in T2.
       exists c2, F. split; [reflexivity|]. split; [split; [exact I2|split; [exact HF|exact HP2]]|].
@@ -253,6 +253,63 @@ Proof.
     rewrite Q1, Q2.
     split; [clear - T Hl; lia|]. split; [exact Hcap|]. split; [exact Q5|].
     split; [right; split; [reflexivity|clear - T Q3 Hl; lia]|]. left. split; reflexivity.
+Qed.
+
+(* the shape of the postcondition shared by flush_tail, coo_append and the event loop *)
+Definition grown_or_same (limit : Z) (c c' : coo) (F F' : Z) : Prop :=
+  (cap c' = cap c /\ zlen (mn c') = zlen (mn c)) \/
+  (F' = F /\ limit < cap c' /\ cap c < cap c' /\ zlen (mn c) <= zlen (mn c') /\
+   grow_min_size (zlen (mn c)) <= zlen (mn c') /\ ssorted (live c') /\ 19 * cap c <= 20 * ind c').
+
+(* ------------------------------------------------------------------ coo_append *)
+Lemma coo_append_v limit c F E ev :
+  1 <= limit -> VInv limit c F E -> ind c <= cap c - 2 -> 20 <= cap c -> (0 <= e_key ev /\ Q (rck ev)) ->
+  4 * F + 6 < 2 ^ (zlen (mn c) - 1) ->
+  exists c' F',
+    coo_append limit c ev = Ok c' /\ VInv limit c' F' (E + 1) /\ ind c' <= cap c' - 2 /\ 20 <= cap c' /\
+    (forall k, sumby (live c') k = sumby (live c) k + sumby [ev] k) /\
+    (F' = F \/ (F' = F + 1 /\ limit < cap c)) /\ grown_or_same limit c c' F F'.
+Proof.
+  intros Hl (HI & HF & HP) Hic Hcap Hev HG.
+  pose proof HI as ([Hd Hz Hch Hi Hk Hfree Hruns] & C & D).
+  pose proof (Z.abs_nonneg (nthZ (mn c) 0)) as Habs.
+  unfold coo_append. rewrite setZ_okA by (unfold cap in *; clear - Hi Habs Hic; lia). cbn [bind].
+  set (c1 := {| buf := upd (buf c) (Z.to_nat (ind c)) ev; ind := ind c + 1; mn := mn c; depth := depth c |}).
+  assert (L1 : live c1 = live c ++ [ev]) by (apply live_append; clear - Hi Habs Hic; lia).
+  assert (I1 : Inv Q c1 (4 * (F + 1))).
+  { split; [constructor; simpl; auto; try (clear - Hi; lia)|split; [exact C|exact D]].
+    - rewrite L1. apply keys_nonneg_app. split; [exact Hk|]. constructor; [exact Hev|constructor].
+    - intros j Hj. unfold run_at; simpl.
+      assert (Z.abs (nthZ (mn c) j) <= Z.abs (nthZ (mn c) 0)) by (apply (chain_le (mn c) 0 (depth c)); [exact Hch|lia]).
+      rewrite (slice_prefix_eq _ (buf c) _ _ (ind c)); [apply Hruns; exact Hj|apply Z.abs_nonneg|lia|apply firstn_upd]. }
+  assert (V1 : VInv limit c1 F (E + 1)).
+  { split; [exact I1|]. split; [exact HF|]. unfold c1; cbn [ind mn]. clear - HP. lia. }
+  assert (K1 : cap c1 = cap c) by (unfold cap, c1; simpl; apply zlen_upd).
+  assert (S1 : forall k, sumby (live c1) k = sumby (live c) k + sumby [ev] k)
+    by (intros k; rewrite L1; apply sumby_app).
+  assert (Z1 : zlen (mn c1) = zlen (mn c)) by reflexivity.
+  assert (J1 : ind c1 = ind c + 1) by reflexivity.
+  rewrite (getZ_nthZ _ (mn c1) 0) by (simpl; clear - Hd; lia). cbn [bind].
+  clearbody c1.
+  destruct (ind c1 - Z.abs (nthZ (mn c1) 0) >=? limit) eqn:T0.
+  - rewrite Z.geb_leb in T0. apply Z.leb_le in T0.
+    destruct (flush_tail_v limit c1 F (E + 1)) as (c2 & F' & E2 & V2 & J2 & C2 & U2 & FF & GG);
+      [exact Hl|exact V1|rewrite K1, J1; clear - Hic; lia|rewrite K1; exact Hcap|rewrite Z1; exact HG|left; exact T0|].
+    rewrite E2. cbn [bind].
+    replace (ind c2 =? cap c2 - 1) with false by (symmetry; apply Z.eqb_neq; clear - J2; lia).
+    exists c2, F'. split; [reflexivity|]. split; [exact V2|]. split; [exact J2|]. split; [exact C2|].
+    split; [intros k; rewrite U2; apply S1|]. rewrite K1 in FF. split; [exact FF|].
+    unfold grown_or_same in *. rewrite K1, Z1 in GG. exact GG.
+  - cbn [bind]. destruct (ind c1 =? cap c1 - 1) eqn:T.
+    + apply Z.eqb_eq in T.
+      destruct (flush_tail_v limit c1 F (E + 1)) as (c2 & F' & E2 & V2 & J2 & C2 & U2 & FF & GG);
+        [exact Hl|exact V1|rewrite K1, J1; clear - Hic; lia|rewrite K1; exact Hcap|rewrite Z1; exact HG|right; exact T|].
+      exists c2, F'. split; [exact E2|]. split; [exact V2|]. split; [exact J2|]. split; [exact C2|].
+      split; [intros k; rewrite U2; apply S1|]. rewrite K1 in FF. split; [exact FF|].
+      unfold grown_or_same in *. rewrite K1, Z1 in GG. exact GG.
+    + apply Z.eqb_neq in T. exists c1, F. split; [reflexivity|]. split; [exact V1|].
+      rewrite K1 in T. rewrite K1. split; [clear - T J1 Hic; lia|]. split; [exact Hcap|]. split; [exact S1|].
+      split; [left; reflexivity|]. left. split; [exact K1|exact Z1].
 Qed.
 
 End WithQ.
